@@ -33,8 +33,9 @@ LEVEL_TEXT = (
     "rewrite_applies_iff (top-level rewrite = sigma(rhs) of the first yielded rule; unchanged iff no well-formed "
     "rule has an instance equal to the term). Refutation witnesses for the code before the fixes: "
     "old_match_unsound (arity forgotten by the preorder net), old_match_indexError (pop from the empty traverser "
-    "stack), old_apply_captures (sequential substitution). Not proved: that each rule is yielded at most once "
-    "(checked by the oracle on every run); bottom_up is modelled and diffed but has no theorem of its own.")
+    "stack), old_apply_captures (sequential substitution). match_yields_once: no rule is yielded twice, so "
+    "iter_matches yields exactly the matching rules, each once. bottom_up is modelled and diffed but has no "
+    "theorem of its own; unhashable atoms and callable right-hand sides are oracle-only.")
 LEVEL_NOTE = ("Trusted: Lean kernel + standard axioms; the correspondence harness; Python == on terms as structural "
               "equality; the trie is modelled by its set of residual paths (checked against the real trie on every "
               "run); unhashable atoms and callable right-hand sides are exercised by oracle only.")
